@@ -297,6 +297,13 @@ SetChainTree(x, y) == IF y.op = "INTERSECT" /\ x.op # "INTERSECT"
                         THEN SetOp(S1, x.op, x.all, SetOp(S2, y.op, y.all, S3))
                         ELSE SetOp(SetOp(S1, x.op, x.all, S2), y.op, y.all, S3)
 
+\* the statements every form is paired with in a two-statement script: forms with name lists, item lists and clauses
+\* of every kind, so that a later (or earlier) statement of the script has something to overwrite or inherit
+ScriptPartnerNames == {"twice-cte-column-lists", "using-two-columns", "twice-merge-insert-lists", "twice-constraint-column-lists",
+                       "upsert-update-two", "twice-call-order-by", "create-view-columns", "two-joins", "for-update-of-nowait",
+                       "cte-materialized", "insert-multirow"}
+ScriptPartners == {f \in Forms \cup Forms2 : f.name \in ScriptPartnerNames}
+
 VARIABLES case, done
 vars == <<case, done>>
 Init == /\ done = FALSE
@@ -306,6 +313,12 @@ Init == /\ done = FALSE
            \/ \E c \in WindowCfg : ValidWindow(c) /\ case = [name |-> "window-spec", cfg |-> c, toks |-> WindowToks(c), tree |-> WindowTree(c)]
            \/ \E x \in SetOps, y \in SetOps :
                  case = [name |-> "set-chain:" \o x.op \o ":" \o y.op, cfg |-> <<x, y>>, toks |-> SetChainToks(x, y), tree |-> SetChainTree(x, y)]
+           \* a script is the sequence of its statements' trees: nothing of one statement reaches into another
+           \/ \E a \in Forms \cup Forms2, b \in ScriptPartners :
+                 \/ case = [name |-> "script", cfg |-> <<a.name, b.name>>, toks |-> a.toks \o <<";">> \o b.toks,
+                             tree |-> [T |-> "Script", Statements |-> <<a.tree, b.tree>>]]
+                 \/ case = [name |-> "script", cfg |-> <<b.name, a.name>>, toks |-> b.toks \o <<";">> \o a.toks,
+                             tree |-> [T |-> "Script", Statements |-> <<b.tree, a.tree>>]]
            \/ \E g \in GroupExt, n \in 1..2 : case = [name |-> "group-" \o g, cfg |-> <<>>, toks |-> GroupExtToks(g, n), tree |-> GroupExtTree(g, n)]
            \/ \E cx \in OrderCtx, l \in OrderLists :
                  case = [name |-> "order-" \o cx, cfg |-> l, toks |-> OrderToks(cx, l), tree |-> OrderTree(cx, l)]
